@@ -12,10 +12,33 @@ theorem minKey_erase (n : Node) : minKey (erase n) = minKey n := by
   | leaf k v m => rfl
   | inner k h s l r m ihl _ => simpa [erase, minKey] using ihl
 
-/-- **Merkle binding**: equal hashes ⇒ equal abstract trees, or a collision. -/
+theorem eq_or_collisionIn {H : Bytes → Bytes} {x y : Bytes} (h : H x = H y) : x = y ∨ CollisionIn H [x, y] := by
+  by_cases e : x = y
+  · exact Or.inl e
+  · exact Or.inr ⟨x, by simp, y, by simp, e, h⟩
+
+/-- the pre-image hashed at the top of a tree. -/
+def topEnc (H : Bytes → Bytes) : Node → Bytes
+  | .leaf k v _ => leafEnc k v
+  | .inner _ ht sz l r _ => innerEnc (pureHash H l) (pureHash H r) ht sz
+
+theorem topEnc_mem (H : Bytes → Bytes) (n : Node) : topEnc H n ∈ treeTrace H n := by
+  cases n <;> simp [topEnc, treeTrace]
+
+theorem collisionIn_top {H : Bytes → Bytes} {n m : Node} (c : CollisionIn H [topEnc H n, topEnc H m]) :
+    CollisionIn H (treeTrace H n ++ treeTrace H m) :=
+  c.mono (by
+    intro z hz
+    simp only [List.mem_cons, List.mem_nil_iff, or_false] at hz
+    rcases hz with rfl | rfl
+    · exact List.mem_append_left _ (topEnc_mem H n)
+    · exact List.mem_append_right _ (topEnc_mem H m))
+
+/-- **Merkle binding**: equal hashes ⇒ equal abstract trees, or a collision between two of the strings hashed in
+the two trees. -/
 theorem pureHash_inj {H : Bytes → Bytes} (hlen : ∀ x, (H x).length = 32) :
     ∀ (n m : Node), Shape n → Shape m → KeyMin n → KeyMin m → pureHash H n = pureHash H m →
-      erase n = erase m ∨ Collision H := by
+      erase n = erase m ∨ CollisionIn H (treeTrace H n ++ treeTrace H m) := by
   intro n
   induction n with
   | leaf k v mt =>
@@ -23,18 +46,18 @@ theorem pureHash_inj {H : Bytes → Bytes} (hlen : ∀ x, (H x).length = 32) :
     cases m with
     | leaf k' v' mt' =>
       simp only [pureHash] at e
-      rcases eq_or_collision e with e' | c
+      rcases eq_or_collisionIn e with e' | c
       · obtain ⟨rfl, rfl⟩ := leafEnc_inj e'; exact Or.inl rfl
-      · exact Or.inr c
+      · exact Or.inr (collisionIn_top (n := .leaf k v mt) (m := .leaf k' v' mt') c)
     | inner k' ht sz l r mt' =>
       simp only [pureHash] at e
-      rcases eq_or_collision e with e' | c
+      rcases eq_or_collisionIn e with e' | c
       · exfalso
         obtain ⟨_, _, b1, _⟩ := sm
         rw [leafEnc_eq_encXY, innerEnc_eq_encXY] at e'
         have := (encXY_inj (h := 0) (s := 1) (h' := (ht : Int)) (s' := (sz : Int)) (by omega) (by omega) (by omega) (by omega) e').2.2.1
         omega
-      · exact Or.inr c
+      · exact Or.inr (collisionIn_top (n := .leaf k v mt) (m := .inner k' ht sz l r mt') c)
   | inner k ht sz l r mt ihl ihr =>
     intro m sn sm kn km e
     obtain ⟨sl, sr, b1, _⟩ := sn
@@ -42,17 +65,17 @@ theorem pureHash_inj {H : Bytes → Bytes} (hlen : ∀ x, (H x).length = 32) :
     cases m with
     | leaf k' v' mt' =>
       simp only [pureHash] at e
-      rcases eq_or_collision e with e' | c
+      rcases eq_or_collisionIn e with e' | c
       · exfalso
         rw [leafEnc_eq_encXY, innerEnc_eq_encXY] at e'
         have := (encXY_inj (h := (ht : Int)) (s := (sz : Int)) (h' := 0) (s' := 1) (by omega) (by omega) (by omega) (by omega) e').2.2.1
         omega
-      · exact Or.inr c
+      · exact Or.inr (collisionIn_top (n := .inner k ht sz l r mt) (m := .leaf k' v' mt') c)
     | inner k' ht' sz' l' r' mt' =>
       obtain ⟨sl', sr', _, _⟩ := sm
       obtain ⟨kl', kr', ke'⟩ := km
       simp only [pureHash] at e
-      rcases eq_or_collision e with e' | c
+      rcases eq_or_collisionIn e with e' | c
       · rw [innerEnc_eq_encXY, innerEnc_eq_encXY, last32_of_length (pureHash_length hlen l),
           last32_of_length (pureHash_length hlen r), last32_of_length (pureHash_length hlen l'),
           last32_of_length (pureHash_length hlen r')] at e'
@@ -65,9 +88,15 @@ theorem pureHash_inj {H : Bytes → Bytes} (hlen : ∀ x, (H x).length = 32) :
             have h3 : ht = ht' := by omega
             have h4 : sz = sz' := by omega
             simp [erase, el, er, hk, h3, h4]
-          · exact Or.inr c
-        · exact Or.inr c
-      · exact Or.inr c
+          · exact Or.inr (c.mono (by
+              intro z hz
+              simp only [treeTrace, List.mem_append, List.mem_cons] at hz ⊢
+              rcases hz with h | h <;> simp [h]))
+        · exact Or.inr (c.mono (by
+            intro z hz
+            simp only [treeTrace, List.mem_append, List.mem_cons] at hz ⊢
+            rcases hz with h | h <;> simp [h]))
+      · exact Or.inr (collisionIn_top (n := .inner k ht sz l r mt) (m := .inner k' ht' sz' l' r' mt') c)
 
 /-- every node's key is exactly the hash of its content (a store without the height prefix). -/
 def PH (H : Bytes → Bytes) : Node → Prop
@@ -142,22 +171,49 @@ theorem writes_sub {H : Bytes → Bytes} (cfg : Cfg) (n : Node) (hp : PH H n) :
           · subst h
             exact ⟨.inner k ht sz l r m, by simp [subnodes], rfl⟩
 
-/-- every record of the database is the record of some well-formed node, stored under that node's hash. -/
-def DBInv (H : Bytes → Bytes) (cfg : Cfg) (db : NodeDB) : Prop :=
-  ∀ (k v : Bytes), db[k]? = some v → ∃ s, Shape s ∧ KeyMin s ∧ k = pureHash H s ∧ v = recOf H cfg s
+theorem treeTrace_sub (H : Bytes → Bytes) (n : Node) : ∀ s ∈ subnodes n, ∀ x ∈ treeTrace H s, x ∈ treeTrace H n := by
+  induction n with
+  | leaf k v m => intro s h; simp [subnodes] at h; subst h; exact fun x hx => hx
+  | inner k ht sz l r m ihl ihr =>
+    intro s h x hx
+    simp only [subnodes, List.mem_cons, List.mem_append] at h
+    rcases h with rfl | h | h
+    · exact hx
+    · simp [treeTrace, ihl s h x hx]
+    · simp [treeTrace, ihr s h x hx]
 
-theorem rec_eq_of_hash_eq {H : Bytes → Bytes} (hlen : ∀ x, (H x).length = 32) (cfg : Cfg) (hnc : ¬ Collision H)
+/-- the strings hashed in a list of trees. -/
+def tracesOf (H : Bytes → Bytes) (W : List Node) : List Bytes := W.flatMap (treeTrace H)
+
+theorem tracesOf_mem {H : Bytes → Bytes} {W : List Node} {s : Node} (h : s ∈ W) :
+    ∀ x ∈ treeTrace H s, x ∈ tracesOf H W := by
+  intro x hx; exact List.mem_flatMap.mpr ⟨s, h, hx⟩
+
+/-- every record of the database is the record of a well-formed node from the explicit list `W` (the nodes saved
+so far), stored under that node's hash. -/
+def DBInv (H : Bytes → Bytes) (cfg : Cfg) (db : NodeDB) (W : List Node) : Prop :=
+  ∀ (k v : Bytes), db[k]? = some v → ∃ s ∈ W, Shape s ∧ KeyMin s ∧ k = pureHash H s ∧ v = recOf H cfg s
+
+theorem DBInv.mono {H : Bytes → Bytes} {cfg : Cfg} {db : NodeDB} {W W' : List Node} (h : DBInv H cfg db W)
+    (hs : ∀ s ∈ W, s ∈ W') : DBInv H cfg db W' := by
+  intro k v hv
+  obtain ⟨s, m, rest⟩ := h k v hv
+  exact ⟨s, hs s m, rest⟩
+
+theorem rec_eq_of_hash_eq {H : Bytes → Bytes} (hlen : ∀ x, (H x).length = 32) (cfg : Cfg)
     (a b : Node) (sa : Shape a) (sb : Shape b) (ka : KeyMin a) (kb : KeyMin b)
-    (e : pureHash H a = pureHash H b) : recOf H cfg a = recOf H cfg b := by
+    (e : pureHash H a = pureHash H b) :
+    recOf H cfg a = recOf H cfg b ∨ CollisionIn H (treeTrace H a ++ treeTrace H b) := by
   rcases pureHash_inj hlen a b sa sb ka kb e with h | c
-  · rw [← recOf_erase H cfg a, h, recOf_erase]
-  · exact absurd c hnc
+  · left; rw [← recOf_erase H cfg a, h, recOf_erase]
+  · exact Or.inr c
 
-/-- **`Consistent` or a collision.** -/
+/-- **`Consistent` or a collision** among the strings hashed in the tree being saved and in the trees saved before. -/
 theorem consistent_or_collision {H : Bytes → Bytes} (hlen : ∀ x, (H x).length = 32) (cfg : Cfg) (n : Node)
-    (hp : PH H n) (hs : Shape n) (hk : KeyMin n) (db : NodeDB) (hdb : DBInv H cfg db)
-    (ws : List (Bytes × Bytes)) (hw : writes cfg n = some ws) : Consistent ws db ∨ Collision H := by
-  by_cases hnc : Collision H
+    (hp : PH H n) (hs : Shape n) (hk : KeyMin n) (db : NodeDB) (W : List Node) (hdb : DBInv H cfg db W)
+    (ws : List (Bytes × Bytes)) (hw : writes cfg n = some ws) :
+    Consistent ws db ∨ CollisionIn H (treeTrace H n ++ tracesOf H W) := by
+  by_cases hnc : CollisionIn H (treeTrace H n ++ tracesOf H W)
   · exact Or.inr hnc
   · left
     have hsub := writes_sub cfg n hp ws hw
@@ -168,17 +224,29 @@ theorem consistent_or_collision {H : Bytes → Bytes} (hlen : ∀ x, (H x).lengt
       obtain ⟨s2, m2, rfl⟩ := hsub q hqm
       obtain ⟨_, a2, a3⟩ := hprops s1 m1
       obtain ⟨_, b2, b3⟩ := hprops s2 m2
-      exact rec_eq_of_hash_eq hlen cfg hnc s1 s2 a2 b2 a3 b3 e
+      rcases rec_eq_of_hash_eq hlen cfg s1 s2 a2 b2 a3 b3 e with h | c
+      · exact h
+      · exact absurd (c.mono (by
+          intro z hz
+          rcases List.mem_append.mp hz with h | h
+          · exact List.mem_append_left _ (treeTrace_sub H n s1 m1 z h)
+          · exact List.mem_append_left _ (treeTrace_sub H n s2 m2 z h))) hnc
     · intro p hpm v hv
       obtain ⟨s1, m1, rfl⟩ := hsub p hpm
       obtain ⟨_, a2, a3⟩ := hprops s1 m1
-      obtain ⟨s2, b2, b3, e, rfl⟩ := hdb _ v hv
-      exact rec_eq_of_hash_eq hlen cfg hnc s2 s1 b2 a2 b3 a3 e.symm
+      obtain ⟨s2, mw, b2, b3, e, rfl⟩ := hdb _ v hv
+      rcases rec_eq_of_hash_eq hlen cfg s2 s1 b2 a2 b3 a3 e.symm with h | c
+      · exact h
+      · exact absurd (c.mono (by
+          intro z hz
+          rcases List.mem_append.mp hz with h | h
+          · exact List.mem_append_right _ (tracesOf_mem mw z h)
+          · exact List.mem_append_left _ (treeTrace_sub H n s1 m1 z h))) hnc
 
 /-- the database invariant is kept by `save`. -/
-theorem dbinv_insertAll {H : Bytes → Bytes} (cfg : Cfg) (ws : List (Bytes × Bytes)) :
-    ∀ db, DBInv H cfg db → (∀ p ∈ ws, ∃ s, Shape s ∧ KeyMin s ∧ p = (pureHash H s, recOf H cfg s)) →
-      DBInv H cfg (insertAll db ws) := by
+theorem dbinv_insertAll {H : Bytes → Bytes} (cfg : Cfg) (W : List Node) (ws : List (Bytes × Bytes)) :
+    ∀ db, DBInv H cfg db W → (∀ p ∈ ws, ∃ s ∈ W, Shape s ∧ KeyMin s ∧ p = (pureHash H s, recOf H cfg s)) →
+      DBInv H cfg (insertAll db ws) W := by
   induction ws with
   | nil => intro db h _; exact h
   | cons w rest ih =>
@@ -188,34 +256,37 @@ theorem dbinv_insertAll {H : Bytes → Bytes} (cfg : Cfg) (ws : List (Bytes × B
       rw [Std.HashMap.getElem?_insert] at hv
       by_cases e : w.1 = k
       · simp [e] at hv
-        obtain ⟨s, a, b, c⟩ := hw w (by simp)
-        exact ⟨s, a, b, by rw [← e, c], by rw [← hv, c]⟩
+        obtain ⟨s, m, a, b, c⟩ := hw w (by simp)
+        exact ⟨s, m, a, b, by rw [← e, c], by rw [← hv, c]⟩
       · have : (w.1 == k) = false := by simpa using e
         simp [this] at hv
         exact h k v hv
     · intro p hp; exact hw p (by simp [hp])
 
 /-- **load_save, full** (store without height prefix): saving a tree whose keys are the hashes of its content into a
-database that only holds such records makes it loadable, keeps every earlier record, keeps the database invariant —
-or the hash function has a collision.  No `Consistent` hypothesis. -/
+database that only holds such records (of the nodes `W`) makes it loadable, keeps every earlier record, keeps the
+database invariant (for `W ++ subnodes n`) — or two of the strings hashed in the tree and in `W` collide.
+No `Consistent` hypothesis. -/
 theorem load_save_full {H : Bytes → Bytes} (hlen : ∀ x, (H x).length = 32) (cfg : Cfg) (n n' : Node) (db db' : NodeDB)
-    (hsave : save cfg n db = some (n', db')) (hp : PH H n) (hs : Shape n) (hk : KeyMin n) (hdb : DBInv H cfg db)
+    (W : List Node)
+    (hsave : save cfg n db = some (n', db')) (hp : PH H n) (hs : Shape n) (hk : KeyMin n) (hdb : DBInv H cfg db W)
     (hps : PersistedStored cfg db n) (hf : FitsRec n)
     (fuel : Nat) (top : Bool) (hd : depth n < fuel) :
-    (load db' fuel top (pureHash H n) = .ok (asLoaded cfg n) ∧ Sub db db' ∧ Stored cfg db' n' ∧ DBInv H cfg db') ∨
-      Collision H := by
+    (load db' fuel top (pureHash H n) = .ok (asLoaded cfg n) ∧ Sub db db' ∧ Stored cfg db' n' ∧
+      DBInv H cfg db' (W ++ subnodes n)) ∨
+      CollisionIn H (treeTrace H n ++ tracesOf H W) := by
   obtain ⟨ws, hw, _, hdb'⟩ := save_eq cfg n db n' db' hsave
-  rcases consistent_or_collision hlen cfg n hp hs hk db hdb ws hw with hc | c
+  rcases consistent_or_collision hlen cfg n hp hs hk db W hdb ws hw with hc | c
   · left
     obtain ⟨a, b, c⟩ := load_save cfg n n' db db' hsave hps hf (fun ws' hw' => by rw [hw] at hw'; cases hw'; exact hc)
       (pureHash H n) hp.hk fuel top hd
     refine ⟨a, b, c, ?_⟩
     rw [hdb']
-    apply dbinv_insertAll cfg ws db hdb
+    apply dbinv_insertAll cfg (W ++ subnodes n) ws db (hdb.mono (fun s h => List.mem_append_left _ h))
     intro p hpm
     obtain ⟨s, ms, e⟩ := writes_sub cfg n hp ws hw p hpm
     obtain ⟨_, s2, s3⟩ := subnodes_props n hp hs hk s ms
-    exact ⟨s, s2, s3, e⟩
+    exact ⟨s, List.mem_append_right _ ms, s2, s3, e⟩
   · exact Or.inr c
 
 /-! ### how `PH` is established: `Node.Hash` without the height prefix, on a tree whose untouched parts are `PH` -/
